@@ -1,6 +1,7 @@
 """C03 - .p8 text cart write/read round trip preserves the whole cart."""
 import io
 import lib
+from props import shortp8
 
 ID = 'C03'
 GEN_FILES = ['K_p8file', 'K_gfx', 'K_gff', 'K_map', 'K_sfx', 'K_music', 'T_p8scii', 'T_lexer']
@@ -18,7 +19,12 @@ RULE = ('cart case = version + label present/absent + five regions (random / 0xf
         'and holds_C03 (Spec/P8FileSpec.v, extracted) judges cart -> file -> cart\' -> file\' on the implementation alone; '
         'malformed files (bad header, unknown section, duplicate sections, header-like code lines, invalid UTF-8, lines '
         'before the first section) compare reader model and implementation incl. the exception raised; the two header regexes '
-        'are compared with the hand-written matchers on all strings up to length 6 over a 7-symbol alphabet. '
+        'are compared with the hand-written matchers on all strings up to length 6 over a 7-symbol alphabet; short cases: the '
+        'file the real to_file wrote for a cart, with every data section cut by the harness to its first k rows (k = 0, 1, 2, '
+        'half, all but one; sections with no row left out or kept as a bare header; with or without the blank separator lines) '
+        'and hand-written minimal carts the way PICO-8 0.2.x saves them: from_file on them is compared with the model\'s '
+        'reader and judged by holds_C03_short (every region at full size: the rows present, then the empty default), and the '
+        're-read cart is written and read once more (same cart). '
         'distinct+non-trivial = distinct cart cases with a non-zero region or non-empty code')
 ASSUMPTIONS = ['the Lua object is abstract in the theorems (its lexer/parser/echo are C06/C07/C08): the round-trip theorem '
                'assumes echo(lex(text)) = text for text that is already an echo and that the sanity re-lex succeeds',
@@ -30,22 +36,32 @@ PARTIAL = ('C03_roundtrip / C03_rewrite_identical keep the Lua object abstract (
            'cart, re-written identically); left: the parser accepts what the '
            'lexer accepts (Lua.from_lines also parses) - observed by the monitor on every case, not proved')
 TRUSTED = ['hand-written matchers for HEADER_VERSION_RE / SECTION_DELIM_RE (sources pinned; compared with re exhaustively on short strings)',
-           'gen/kernels_p8file.py: the statement sequence of P8Formatter.to_file and the dispatch of from_file as data']
+           'gen/kernels_p8file.py: the statement sequence of P8Formatter.to_file, the dispatch of from_file and its '
+           'fill-up loop for short sections as data']
 CLAIM = dict(
-    text=("Theorems C03_roundtrip, C03_rewrite_identical, C03_ended_flag, C03_roundtrip_lexer, C03_roundtrip_lexer_full, C03_roundtrip_lexer_dialect (Coq, closed under the global context) about a model "
-          "of P8Formatter.to_file / _get_raw_data_from_p8_file / from_file whose writer statement sequence, section dispatch "
+    text=("Theorems C03_roundtrip, C03_rewrite_identical, C03_ended_flag, C03_short_sections_padded, C03_short_holds, C03_fill_defaults_are_the_formats, C03_roundtrip_lexer, C03_roundtrip_lexer_full, C03_roundtrip_lexer_dialect (Coq, closed under the global context) about a model "
+          "of P8Formatter.to_file / _get_raw_data_from_p8_file / from_file whose writer statement sequence, section dispatch, "
+          "the loop that fills short data sections up (with the default contents taken from the running code) "
           "and header strings are regenerated from p8.py on every run: for every cart (any bytes in the five regions, any label "
           "or none, any version >= 0, any echoed Lua text without a __section__-like line) the file is written, splits back into "
           "exactly the written lines, the lexer is handed exactly the echoed text with a missing final newline supplied, and the "
           "re-read cart has the same version, regions (music minus the one excepted bit) and label; re-writing it gives the "
-          "identical file. Built on the C15 (P8SCII/UTF-8) and C16 (per-section codecs) theorems. PARTIAL in one respect: the "
+          "identical file. C03_short_sections_padded: for a cart whose data regions stop early at a row boundary (the .p8 files "
+          "newer PICO-8 versions save leave out the empty tail of a section) the file spelling out just those rows reads back "
+          "with every region at full length - the rows present followed by the empty default (zeros; 41 42 43 44 per music "
+          "pattern) - about the code AFTER the fix: commit that fills short sections up in from_file; C03_short_holds: that "
+          "reading is the cart the file denotes by the reference semantics (holds_C03_short holds of the model's reader); "
+          "C03_fill_defaults_are_the_formats: the defaults dumped from the running code are those of the format description. "
+          "Built on the C15 (P8SCII/UTF-8) and C16 (per-section codecs) theorems. PARTIAL in one respect: the "
           "Lua object is abstract in the theorems - that the sanity re-lex succeeds, that the echo writer's last chunk is not "
           "empty, and echo_stable (the re-read object echoes the text it was lexed from) are explicit hypotheses owed by the "
           "lexer stack (C06/C07); they are observed, not proved, in the abstract theorems; C03_roundtrip_lexer instantiates the Lua object with the lexer model and echo writer of C06/C07 and discharges them from Proofs/EchoStable.v (echo idempotence, also with the final newline supplied; no echoed line is empty), and C03_roundtrip_lexer_full also discharges the writer's sanity re-lex (for Lua objects without a lone-CR newline token), C03_roundtrip_lexer_dialect states it for carts whose code was lexed from a byte text of the reference dialect (written, read back, re-written identically, and the re-read cart is again lexed from a text of the dialect - by C06_relex_reference - so the trip iterates) with no lexer-side hypothesis, leaving the parser's acceptance (Lua.from_lines also parses) as the one thing observed rather than proved. Tie: model vs real to_file bytes and from_file results "
           "(regions, label, version, the lines handed to the lexer, exceptions on malformed files), the two header regex "
           "matchers vs re exhaustively on short strings, and holds_C03 (extracted from Spec/P8FileSpec.v) on the "
-          "implementation's own cart -> file -> cart' -> file'."),
-    note=("Trusted: Coq kernel+VM, gen/kernels_p8file.py (to_file statement sequence and from_file dispatch as data; fail-closed), "
+          "implementation's own cart -> file -> cart' -> file'; files with sections cut to k rows by the harness and "
+          "hand-written minimal carts: from_file vs the model's reader and holds_C03_short (the cart read is the cart the file "
+          "denotes by Spec/P8Format.v 'short sections')."),
+    note=("Trusted: Coq kernel+VM, gen/kernels_p8file.py (to_file statement sequence, from_file dispatch and fill-up loop as data; fail-closed), "
           "the hand-written regex matchers (sources pinned), readline/dict modelling, stdlib Decimal for int()/'%s', extraction, "
           "OCaml glue. The lexer/parser/echo writer are abstract (hypotheses named in the theorem statements)."),
     technique='Coq proof (round trip by induction over lines/sections on regenerated writer events; table side conditions by vm_compute) + correspondence + extracted monitor',
@@ -182,6 +198,21 @@ def generate(tier, rng):
         for s in ORDER:
             c[s] = lib.hx(vs[s][i])
         yield c
+    # files whose data sections have fewer rows than the full count (newer PICO-8 versions leave out the empty tail)
+    for i in range(10 if tier == 'quick' else 120):
+        c = _cart(rng, tier)
+        c['kind'] = 'short'
+        keep = {}
+        for s in shortp8.DATA_SECTIONS:
+            n = shortp8.ROWS[s]
+            if rng.random() < 0.8:
+                keep[s] = rng.choice([0, 0, 1, 2, n // 2, n - 1])
+        c['keep'] = keep
+        c['blank'] = i % 2 == 0
+        c['drop_empty'] = i % 3 != 0
+        yield c
+    for name in sorted(shortp8.MINIMAL):
+        yield {'kind': 'shorttext', 'name': name, 'text': lib.hx(shortp8.MINIMAL[name])}
     yield {'kind': 'malformed'}
     yield {'kind': 'regex'}
     import os
@@ -194,6 +225,8 @@ def generate(tier, rng):
 
 def corpus_cases():
     z = {s: lib.hx(bytes(SIZES[s])) for s in ORDER}
+    # the cart of findings/known_C04.json (fixed): a two-row __gfx__ and a one-row __music__ section, nothing else
+    yield {'kind': 'shorttext', 'name': 'gfx2-music1', 'text': lib.hx(shortp8.MINIMAL['gfx2-music1'])}
     yield dict(z, kind='cart', version=8, label=None, code=lib.hx(b''))
     yield dict(z, kind='cart', version=0, label=lib.hx(bytes(8192)), code=lib.hx(b'x=1'))
     yield dict(z, kind='cart', version=8, label=None, code=lib.hx(b'-- \x80\x8b\xff\x01\x7f\nx="\x99"\n'))
@@ -296,6 +329,39 @@ def run_impl(case):
         except Exception as e:  # noqa
             obs['raised'] = 'rewrite:' + lib.exc_name(e)
         return obs
+    if k in ('short', 'shorttext'):
+        if k == 'short':
+            whole = run_impl(dict(case, kind='cart'))
+            if 'skip' in whole or 'f1' not in whole:
+                return {'skip': whole.get('skip') or whole.get('raised')}
+            data = shortp8.cut_rows(lib.unhx(whole['f1']), case['keep'], blank_lines=case['blank'],
+                                    drop_empty=case['drop_empty'])
+            # what the file spells out: the rows kept of every region
+            cut = {s: lib.hx(lib.unhx(case[s])[:case['keep'][s] * shortp8.ROW[s]]) if s in case['keep'] else case[s]
+                   for s in ORDER}
+            lab = case['label']
+            if lab is not None and 'label' in case['keep']:
+                lab = lib.hx(lib.unhx(lab)[:case['keep']['label'] * 64])
+                if case['drop_empty'] and case['keep']['label'] == 0:
+                    lab = None          # the label section is not in the file at all
+            obs = {'spelt': dict(cut, version=case['version'], label=lab, code=whole['before']['code'])}
+        else:
+            data = lib.unhx(case['text'])
+            obs = {}
+        g, err, lines, lua_err = _read(data)
+        obs.update({'file': lib.hx(data), 'read_err': err, 'lua_err': lua_err,
+                    'lualines': [lib.hx(l) for l in lines] if lines is not None else None})
+        if g is not None:
+            obs['after'] = _cart_obs(g)
+            # the cart read is a cart like any other: written and read once more it must be the same cart
+            try:
+                f2 = io.BytesIO()
+                P8Formatter.to_file(g, f2)
+                g3, err3, _, _ = _read(f2.getvalue())
+                obs['again'] = _cart_obs(g3) if g3 is not None else 'ERR ' + str(err3)
+            except Exception as e:  # noqa
+                obs['again'] = 'ERR ' + lib.exc_name(e)
+        return obs
     if k == 'file':
         data = open(case['path'], 'rb').read()
         g, err, lines, lua_err = _read(data)
@@ -359,8 +425,8 @@ def model_requests(case, obs):
         if 'f1' in obs:
             reqs.append('r ' + obs['f1'])
         return reqs
-    if k == 'file':
-        return ['r ' + obs['file']]
+    if k in ('file', 'short', 'shorttext'):
+        return [] if 'skip' in obs else ['r ' + obs['file']]
     if k == 'malformed':
         return ['r ' + r['file'] for r in obs['rows']]
     if k == 'regex':
@@ -389,6 +455,14 @@ def compare(case, obs, answers):
         if exp is not None and answers[0] != exp:
             return 'from_file(%s) differs from the model (%s...)' % (case['path'], answers[0][:60])
         return None
+    if k in ('short', 'shorttext'):
+        if 'skip' in obs:
+            return None
+        exp = _r_expect(obs)
+        if exp is not None and answers[0] != exp:
+            return 'from_file of a file with short sections differs from the model (implementation %s..., model %s...)' % (
+                exp[:40], answers[0][:40])
+        return None
     if k == 'malformed':
         for r, a in zip(obs['rows'], answers):
             exp = _r_expect(r)
@@ -404,7 +478,28 @@ def compare(case, obs, answers):
     return None
 
 
+def _side(o):
+    return '%d %s %s %s' % (o['version'], o['code'], o['label'] or 'N', ' '.join(o[s] for s in ORDER))
+
+
 def monitor_requests(case, obs):
+    if case['kind'] in ('short', 'shorttext') and 'skip' not in obs:
+        reqs = []
+        a = obs.get('after')
+        if case['kind'] == 'short':
+            sp = obs['spelt']
+            reqs.append('s %d %s %s' % (0 if a else 1, _side(sp), _side(a or sp)))
+        elif a is None:
+            reqs.append('s-read-raised-%s' % obs['read_err'])        # not a request: answers DRIVER-ERROR
+        if a is not None:
+            # every region of the cart read is whole (the same predicate with nothing left out) and it survives a
+            # write/read of its own
+            g = obs['again']
+            if isinstance(g, str):
+                reqs.append('s-rewrite-%s' % g.replace(' ', '-'))
+            else:
+                reqs.append('s 0 %s %s' % (_side(a), _side(g)))
+        return reqs
     if case['kind'] != 'cart' or 'skip' in obs:
         return []
     b = obs['before']
@@ -419,6 +514,14 @@ def monitor_requests(case, obs):
 
 
 def signature(case, obs):
+    if case['kind'] in ('short', 'shorttext'):
+        a = (obs or {}).get('after')
+        if not a:
+            return 'C03/short/raised/%s' % (obs or {}).get('read_err')
+        bad = [s for s in ORDER if len(a[s]) != 2 * SIZES[s]]
+        if a['label'] is not None and len(a['label']) != 2 * 8192:
+            bad.append('label')
+        return 'C03/short/' + ('size:' + '+'.join(bad) if bad else 'contents')
     if case['kind'] != 'cart':
         return 'C03/' + case['kind']
     if obs.get('raised'):
@@ -437,6 +540,9 @@ def signature(case, obs):
 
 
 def what(case, obs):
+    if case['kind'] in ('short', 'shorttext'):
+        return ('reading a .p8 file whose data sections have fewer rows than the full count does not give the cart the '
+                'file denotes (%s)' % signature(case, obs))
     return '.p8 write/read round trip does not preserve the cart (%s)' % signature(case, obs)
 
 
@@ -451,6 +557,14 @@ def describe(case, obs):
             d['skipped'] = obs.get('skip')
     elif case['kind'] == 'file':
         d['path'] = case['path']
+    elif case['kind'] in ('short', 'shorttext'):
+        d.update(rows_kept=case.get('keep'), blank_lines=case.get('blank'), drop_empty=case.get('drop_empty'),
+                 name=case.get('name'))
+        if obs and 'file' in obs:
+            d['file'] = lib.unhx(obs['file'])[:160].decode('latin-1') + '...'
+            d['read_error'] = obs.get('read_err')
+            if obs.get('after'):
+                d['region_sizes_read'] = {s: len(obs['after'][s]) // 2 for s in ORDER}
     return d
 
 
@@ -493,6 +607,8 @@ def minimize(case, obs, answers):
 
 
 def nontrivial_key(case, obs):
+    if case['kind'] in ('short', 'shorttext') and 'skip' not in (obs or {}):
+        return hash(tuple(sorted((k, str(v)) for k, v in case.items())))
     if case['kind'] == 'cart' and 'skip' not in (obs or {}):
         if any(set(case[s]) - set('0') for s in ORDER) or case['code'] != '-':
             return hash(tuple(sorted((k, str(v)) for k, v in case.items())))
